@@ -33,4 +33,5 @@ OpsNH == {"N", "H"}
 GeomsOne      == <<Mps3>>
 GeomsSwap     == <<Mps4>>
 GeomsMpo      == <<Mpo3>>
+GeomsMpo2     == <<Mpo2>>
 =============================================================================
